@@ -11,8 +11,8 @@
    scheduler; it is measured on real clusters (scenario family 8), not proved. *)
 From Coq Require Import List NArith.
 From stdpp Require Import gmap.
-From RaftModel Require Import Base Config Node Replicate.
-From RaftProofs Require Import CatchupProofs AppendProofs ReplicateProofs.
+From RaftModel Require Import Base Config Node Replicate Converge.
+From RaftProofs Require Import CatchupProofs AppendProofs ReplicateProofs ConvergeFollower ConvergeProofs ConvergeCounter.
 Open Scope N_scope.
 
 Theorem C12_snapshot_then_append_accepted : forall P s2 rt tr1 q s' r tr fs' a,
@@ -63,6 +63,35 @@ Theorem C12_request_shape : forall P s next last pi pt es c,
   keys_ok (d_log s) -> setup_send P s next last = SendAE pi pt es c -> es <> [] ->
   (N.of_nat (length es) <= p_maxappend P \/ p_maxappend P = 0) /\ last_idx_of es <= last.
 Proof. exact send_shape. Qed.
+
+
+(* ---- BOTH SIDES COMPOSED (Model/Converge.v: the leader's replicateTo against the follower's
+   appendEntries handler, no store failure, no snapshot transfer): whatever log the follower holds -
+   stale, divergent, longer or shorter than the leader's, hole-free, subject only to the Log Matching
+   premise real histories satisfy - ONE replicateTo call ends after at most next0 + n trips with the
+   follower holding the leader's term at every index 1..n, nextIndex = n+1 and n reported to the
+   commitment; the handler never panics on the way. *)
+Theorem C12_catch_up_converges : forall PL PF sL sF n next0,
+  leader_ok PL sL n -> follower_ok (v_term sL) sF -> log_matching_premise sL sF -> 1 <= next0 <= n ->
+  exists rs' sF' k,
+    cu_run (N.to_nat (next0 + n) + 1) PL PF sL (mkRS next0 0 0) sF n = Some (rs', sF', k) /\
+    r_next rs' = n + 1 /\ r_match rs' = n /\
+    caught_up sL sF' n /\ follower_wf (v_term sL) sF' /\ n <= v_lastLogIdx sF' /\
+    v_applied sF' <= N.max (v_applied sF) (v_commit sL) /\ (k <= N.to_nat (next0 + n))%nat.
+Proof. exact catch_up_converges_partial. Qed.
+Print Assumptions C12_catch_up_converges.
+
+(* with the leader's commit index and the follower's applied index inside the leader's log, the
+   follower's full invariant (follower_ok, incl. lastApplied <= last log index) is re-established *)
+Theorem C12_catch_up_converges_bounded : forall PL PF sL sF n next0,
+  leader_ok PL sL n -> follower_ok (v_term sL) sF -> log_matching_premise sL sF -> 1 <= next0 <= n ->
+  v_commit sL <= n -> v_applied sF <= n ->
+  exists rs' sF' k,
+    cu_run (N.to_nat (next0 + n) + 1) PL PF sL (mkRS next0 0 0) sF n = Some (rs', sF', k) /\
+    r_next rs' = n + 1 /\ r_match rs' = n /\
+    caught_up sL sF' n /\ follower_ok (v_term sL) sF' /\ (k <= N.to_nat (next0 + n))%nat.
+Proof. exact catch_up_converges_bounded. Qed.
+Print Assumptions C12_catch_up_converges_bounded.
 
 (* Non-vacuity, and the F3-i scenario itself: follower log cfg@1, (2,t2) stale; snapshot (2,t3);
    TrailingLogs 0: installed, then AppendEntries prev=(2,t3) with entry 3 succeeds. *)
